@@ -1800,7 +1800,7 @@ class NiftiWrapper(object):
 
         #If we joined along a spatial dim, rescale the appropriate axis
         scaled_dim_dir = None
-        if dim < 3:
+        if dim < 3 and n_inputs > 1:
             scaled_dim_dir = seq[1].nii_img.affine[:3, 3] - trans
             affine[:3, dim] = scaled_dim_dir
 
